@@ -1365,6 +1365,12 @@ def platform_version(c):
             c.ensure('s%d-other-channel-ignored' % s, "raised is None and len(sent('fetched%d')) == 0 and len(sent('cf.send_packet')) == 2" % s)
             c.call((ps, '_platform_callback'), packet(c, 13, 1, "bytes([0, v%d])" % s, 'version%d' % s))
             c.ensure('s%d-version-is-the-device-version' % s, 'raised is None and ps.get_protocol_version() == v%d' % s)
+            # a (late) answer to another command of the version channel - firmware version, device type name - is not the protocol version
+            c.int('cmd%d' % s, 1, 255)
+            c.int('w%d' % s, 0, 255)
+            c.call((ps, '_platform_callback'), packet(c, 13, 1, "bytes([cmd%d, w%d])" % (s, s), 'late%d' % s))
+            c.ensure('s%d-answers-to-other-version-commands-change-nothing' % s,
+                     "raised is None and ps.get_protocol_version() == v%d and len(sent('fetched%d')) == 1 and len(sent('cf.send_packet')) == 2" % (s, s))
         else:
             data = {'silent-zeros': bytes(30), 'near-miss': b'Bitcraze Crazyfli3 v1', 'short': b'Bitcraze'}[dev]
             c.call((ps, '_crt_service_callback'), packet(c, 15, 1, repr(data), 'ident%d' % s))
